@@ -41,8 +41,8 @@ TEXT = {
          "bounds: logs <=3-4 entries over 2 dataset ids; one restart; harness raft node; multi-node acknowledgement not decided; restart runs are not replayed natively"),
  "C19": ("Bounded symbolic model checking of the real utils.PriorityQueue + container/heap SSA: all push/pop/peek/reverse histories up to the bound, priorities symbolic; assertions discharged by z3 per path.",
          "bounds: 5 mixed / 6 push-pop operations (7 / 8 thorough) followed by a full drain, one Reverse per history; priorities finite non-NaN"),
- "C20": ("Reduced claim: bounded model checking of one member's address book through the real Server.setup wiring: every history of joins/removals with compaction after any change, every restart on the same data directory (log replay or compacted snapshot) must list exactly the acknowledged members with their announced addresses; a zero-group snapshot installed on another member must teach it every peer's address. Convergence across members (etcd/raft replication) and the join handshake under message loss are not decided.",
-         "bounds: <=3 lives on one data directory, <=2-3 joins per life each optionally removed, compaction after any change; harness raft node (one-member group); restart runs are not replayed natively"),
+ "C20": ("Reduced claim: bounded model checking of a 1-3 member cluster of real Servers over an in-memory transport: joins through the real handshake (stream broken after any message, then retried), removal, leader compaction after any change, restart of any member (with or without its join list): every live member must list exactly the acknowledged members with the announced addresses; plus one member over several lives, and installation of a zero-group snapshot on another member. etcd/raft between propose and commit (elections, raft message loss) is replaced by a shared committed log and is not decided.",
+         "bounds: <=3 members (4 without compaction in the thorough tier), one broken handshake per join, one removal, one restart per history; <=3 lives with <=2-3 joins per life in the single-member harness; not replayed natively"),
 }
 NA = {
  "C13": "not applicable to bounded symbolic execution with what is installed: the claim is about all interleavings and data races of operations that each perform dozens of lock/atomic/map steps on a shared pointer graph; the engine interleaves only at synchronisation points and has no memory-model semantics (DESIGN.md section 7)",
